@@ -17,6 +17,7 @@ import (
 	"verif/txkit"
 	"verif/vk"
 
+	cfg "github.com/lianxiangcloud/linkchain/config"
 	"github.com/lianxiangcloud/linkchain/libs/common"
 	lk "github.com/lianxiangcloud/linkchain/libs/cryptonote/types"
 	dbm "github.com/lianxiangcloud/linkchain/libs/db"
@@ -151,6 +152,7 @@ func chainOpts(trie bool) minichain.Options {
 //	c0   contract creation of A with nonce 0           the nonce rule on the creation path
 //	k0   token transfer of A with nonce 0              the nonce rule on the token path
 //	m0   multi-signature account transaction, nonce 0  the nonce rule of the pseudo-account MultiSignNonceAddr
+//	x0,x1,x5 for x in a,c,l,k,u,g and m1,m2,m6         one family per account-based KIND (see kindFamilies)
 func buildCatalogue() *catalogue {
 	c, err := minichain.New(chainOpts(false))
 	if err != nil {
@@ -205,7 +207,63 @@ func buildCatalogue() *catalogue {
 	for _, k := range c.Fixture().Keys[:3] { // 3 of 4 equal validators: > 2/3 of the power
 		signers = append(signers, txkit.SignerOf(k))
 	}
-	add("m0", txkit.MultiSign(0, types.TxContractCreateType, 20, []*types.SignerEntry{{Power: 10, Addr: A.Addr}, {Power: 10, Addr: B.Addr}}, signers))
+	entries := []*types.SignerEntry{{Power: 10, Addr: A.Addr}, {Power: 10, Addr: B.Addr}}
+	add("m0", txkit.MultiSign(0, types.TxContractCreateType, 20, entries, signers))
+	// ---- one family of letters per account-based transaction KIND (every branch of app.GenerateTransaction): the exact
+	// next nonce of the sender (x<next>), next+1 and next+5. Sender A (next nonce 0) for all kinds but the
+	// multi-signature one, whose pseudo-account is at nonce 1 after the kinds set-up block [cC, m0].
+	storeInit := txkit.StoreContract()
+	add("cC", txkit.Create(C, 0, storeInit, nil)) // set-up: the contract that the call letters call
+	storeAddr := txkit.ContractAddress(C.Addr, 0, storeInit)
+	wasmish := append(append([]byte{}, txkit.WasmMagic...), 1, 0, 0, 0)
+	for _, n := range []uint64{1, 5} { // next+1, next+5 (x0 of transfer/creation/token/confidential exist above as a0, c0, k0, u0)
+		if n != 1 {
+			add(fmt.Sprintf("a%d", n), txkit.Transfer(A, n, B.Addr, txkit.LKC(int64(10+n))))
+			add(fmt.Sprintf("u%d", n), must(kit.AccountToUTXO(A, n, []txkit.Dest{txkit.ToWallet(txkit.W2, 1, txkit.LKC(int64(40+n)))}, nil)))
+		}
+		add(fmt.Sprintf("c%d", n), txkit.Create(A, n, storeInit, nil))
+		add(fmt.Sprintf("k%d", n), txkit.TokenTransfer(A, n, txkit.GenesisToken, C.Addr, big.NewInt(int64(12345+n))))
+	}
+	for _, n := range []uint64{0, 1, 5} {
+		add(fmt.Sprintf("l%d", n), txkit.Call(A, n, storeAddr, nil, txkit.Word(big.NewInt(int64(42+n)))))    // message call to a contract
+		add(fmt.Sprintf("g%d", n), txkit.Upgrade(A, n, cfg.ContractFoundationAddr, wasmish, A, B))           // contract upgrade (signer table from m0)
+		add(fmt.Sprintf("m%d", n+1), txkit.MultiSign(n+1, types.TxContractCreateType, 20, entries, signers)) // multi-signature account, nonces 1, 2, 6
+	}
+	// the kinds alphabet must really contain every kind (a builder that silently changes type would hollow the search)
+	kinds := map[string]bool{}
+	for _, fam := range kindFamilies {
+		tx := cat.get(fam[0]).decode()
+		switch t := tx.(type) {
+		case *types.Transaction:
+			switch {
+			case t.To() == nil:
+				kinds["creation"] = true
+			case *t.To() == storeAddr:
+				kinds["call"] = true
+			default:
+				kinds["transfer"] = true
+			}
+		case *types.TokenTransaction:
+			kinds["token"] = true
+		case *types.UTXOTransaction:
+			if t.UTXOKind()&types.Ain == types.Ain {
+				kinds["confidential-with-account-input"] = true
+			}
+		case *types.ContractUpgradeTx:
+			kinds["upgrade"] = true
+		case *types.MultiSignAccountTx:
+			kinds["multisign"] = true
+		}
+		for i, n := range fam {
+			ti, first := cat.get(n), cat.get(fam[0])
+			if !ti.HasAcc || ti.Sender != first.Sender || ti.Nonce != first.Nonce+[]uint64{0, 1, 5}[i] {
+				vk.Fatalf("catalogue: %s is not the +%d letter of its family", n, []uint64{0, 1, 5}[i])
+			}
+		}
+	}
+	if len(kinds) != 7 || len(kindFamilies) != 7 {
+		vk.Fatalf("catalogue: the kinds alphabet covers only %v", kinds)
+	}
 	// self-check of the collisions the alphabet is built for
 	k0, k1 := cat.get("s1").KIs[0], cat.get("s2").KIs[0]
 	for _, n := range []string{"s1x", "s1m", "s1a"} {
@@ -224,6 +282,15 @@ func buildCatalogue() *catalogue {
 	}
 	return cat
 }
+
+// kindFamilies: per account-based transaction kind the letters signed for the sender's next nonce, next+1 and next+5
+// (as of the state after the kinds set-up block). Order: transfer, creation, call, token, confidential with account
+// input, contract upgrade, multi-signature account.
+var kindFamilies = [][3]string{{"a0", "a1", "a5"}, {"c0", "c1", "c5"}, {"l0", "l1", "l5"}, {"k0", "k1", "k5"}, {"u0", "u1", "u5"}, {"g0", "g1", "g5"}, {"m1", "m2", "m6"}}
+
+// kindsSetup is the block committed after the prelude in the kinds search: the contract the call letters call and
+// the multi-signature transaction that installs the signer table the upgrade letters need.
+var kindsSetup = [][]string{{"cC", "m0"}}
 
 // ---------------------------------------------------------------------------------------------------
 // reference model: what the committed chain has consumed
